@@ -166,6 +166,13 @@ theorem C08_rlock_refutes :
     (run queueSysPinned (initState queueSysPinned) rlockWitness).map (fun s => s.done.map (·.ret))
       = some [.nil, .ok 1, .ok 1] := by decide
 
+/-- ConcurrentStack with `RLock` around Pop (the pinned code): the single pushed value is popped twice. -/
+theorem C08_rlock_refutes_stack :
+    (run stackSysPinned (initState stackSysPinned)
+      [.inv 0 (.push 1), .acq 0, .read 0, .commit 0, .rel 0,
+       .inv 1 .pop, .inv 2 .pop, .acq 1, .acq 2, .read 1, .read 2, .commit 1, .commit 2, .rel 1, .rel 2]).map
+      (fun s => s.done.map (·.ret)) = some [.nil, .ok 1, .ok 1] := by decide
+
 /-- the same schedule is not even enabled in the repaired system (the second `acq` must wait) -/
 example : (run queueSys (initState queueSys) rlockWitness).isNone = true := by decide
 
